@@ -53,13 +53,19 @@ pub fn vt(kind: Kind) -> &'static ContractVt {
             )
         }),
         Kind::Subkeys => SK.get_or_init(|| {
-            mc::contract_vt!(
+            let mut v = mc::contract_vt!(
                 "cw1-subkeys",
                 cw1_subkeys::contract,
                 cw1_whitelist::msg::InstantiateMsg,
                 cw1_subkeys::msg::ExecuteMsg,
                 cw1_subkeys::msg::QueryMsg
-            )
+            );
+            fn mig(d: cosmwasm_std::DepsMut, e: cosmwasm_std::Env, m: &[u8]) -> Result<cosmwasm_std::Response, String> {
+                let msg: Empty = cosmwasm_std::from_json(m).map_err(|e| e.to_string())?;
+                cw1_subkeys::contract::migrate(d, e, msg).map_err(|e| e.to_string())
+            }
+            v.migrate = Some(mig);
+            v
         }),
     }
 }
@@ -304,6 +310,9 @@ pub enum Act {
     /// C16: ask CanExecute, run Execute{[msg]} on a copy of the state, compare; the state is kept
     Probe { sender: u8, msg: M },
     Advance,
+    /// run the real `migrate` entry point (cw1-subkeys) on the current storage: nobody's call, so
+    /// nothing the queries report may change
+    Migrate,
 }
 
 /// who may be granted what by the driver
@@ -345,6 +354,8 @@ pub struct Cfg {
     /// true: the kernel dispatches what the proxy relays (messages to the proxy itself are
     /// executed with the proxy as sender); false: relayed messages are only observed
     pub dispatch: bool,
+    /// offer `Migrate` at every state (contracts with a migrate entry point only)
+    pub migrate_probe: bool,
 }
 
 impl Cfg {
@@ -374,6 +385,7 @@ impl Cfg {
             probe_msgs: vec![],
             monitors: false,
             dispatch: false,
+            migrate_probe: false,
         }
     }
     pub fn addr(&self, i: u8) -> String {
@@ -736,7 +748,7 @@ impl Cw1Model {
                     msgs: msgs.iter().map(|m| to_cosmos(&cfg.actors, m)).collect(),
                 },
             ),
-            Act::Probe { .. } | Act::Advance => return None,
+            Act::Probe { .. } | Act::Advance | Act::Migrate => return None,
         })
     }
 
@@ -871,7 +883,7 @@ impl Cw1Model {
         }
         let actor: u8 = match a {
             Act::Inc { by, .. } | Act::Dec { by, .. } | Act::SetPerm { by, .. } | Act::Exec { by, .. } | Act::UpdateAdmins { by, .. } | Act::Freeze { by } => *by,
-            Act::Probe { .. } | Act::Advance => return,
+            Act::Probe { .. } | Act::Advance | Act::Migrate => return,
         };
         let by_admin = rpre.is_admin(actor);
         // the calls that may alter grants: the action itself, or - for an Execute whose relayed
@@ -896,13 +908,20 @@ impl Cw1Model {
             let fell = (0..DENOMS.len() as u8).any(|d| amt(qa, d) < amt(pa, d));
             let redated = !qa.is_empty() && !pa.is_empty() && pe != qe;
             let perm_changed = pre.perms[k as usize] != post.perms[k as usize];
-            if !(rose || fell || redated || perm_changed) {
+            // the entry itself, as AllAllowances lists it (also when nothing is left in it): an entry
+            // appears only by being created or re-dated, time only makes entries disappear
+            let ka = cfg.addr(k);
+            let (lp, lq) = (pre.listed.get(&ka), post.listed.get(&ka));
+            let entry_created = lp.is_none() && lq.is_some();
+            let entry_redated = matches!((lp, lq), (Some(x), Some(y)) if x.1 != y.1);
+            if !(rose || fell || redated || perm_changed || entry_created || entry_redated) {
                 continue;
             }
             let own_spend = is_exec && actor == k;
             let what = format!(
-                "{}: allowance {} {:?} -> {} {:?}, permission flags {} -> {} in {:?} by {}",
+                "{}: {}allowance {} {:?} -> {} {:?}, permission flags {} -> {} in {:?} by {}",
                 cfg.label(k),
+                if entry_created || entry_redated { format!("AllAllowances entry {:?} -> {:?}, ", lp, lq) } else { String::new() },
                 fmt_amounts(pa),
                 pe,
                 fmt_amounts(qa),
@@ -925,7 +944,7 @@ impl Cw1Model {
             if fell && !(own_spend || grants.iter().any(|g| g.0 == k && g.1 && g.2 == GK::Dec)) {
                 v.push(Violation::new("C08.allowance_falls_only_by_admin_decrease_or_own_spending", what.clone()));
             }
-            if (rose || redated) && !admin_sender {
+            if (rose || redated || entry_created || entry_redated) && !admin_sender {
                 v.push(Violation::new("C17.allowance_created_or_raised_only_by_admin", what.clone()));
             }
             if fell && !own_spend && !admin_sender {
@@ -968,6 +987,7 @@ fn label(a: &Act) -> String {
         },
         Act::Probe { msg, .. } => format!("CanExecute-vs-Execute[{}]", msg.kind()),
         Act::Advance => "AdvanceBlock".into(),
+        Act::Migrate => "Migrate".into(),
     }
 }
 
@@ -1102,6 +1122,9 @@ impl Model for Cw1Model {
         if s.w.height < cfg.hmax {
             out.push(Act::Advance);
         }
+        if cfg.migrate_probe && vt(cfg.kind).migrate.is_some() {
+            out.push(Act::Migrate);
+        }
         out
     }
 
@@ -1163,6 +1186,52 @@ impl Model for Cw1Model {
                 self.filter(&mut v);
                 return Step {
                     next: s.clone(),
+                    label: lbl,
+                    ok: out.ok(),
+                    violations: v,
+                };
+            }
+            Act::Migrate => {
+                let mut w = s.w.clone();
+                let out = w.migrate(&proxy, b"{}");
+                let store_same = w.contracts[&proxy].store == s.w.contracts[&proxy].store;
+                let pre = &*s.obs;
+                let obs: Arc<Obs> = if store_same {
+                    s.obs.clone()
+                } else {
+                    match self.observe(&w) {
+                        Ok(o) => Arc::new(o),
+                        Err(e) => {
+                            v.push(Violation::new(&self.cl("observe_failed"), e));
+                            s.obs.clone()
+                        }
+                    }
+                };
+                if !out.ok() && !store_same {
+                    v.push(Violation::new(&self.cl("refused_call_changes_nothing"), format!("migrate failed ({}) but the state changed", out.err())));
+                }
+                if pre.admins != obs.admins || pre.mutable != obs.mutable {
+                    v.push(Violation::new(
+                        "C17.admin_list_changes_only_by_admin_while_mutable",
+                        format!(
+                            "Migrate (no admin's call; contract {}): AdminList {:?} mutable={} -> {:?} mutable={}",
+                            if s.r.mutable { "mutable" } else { "frozen" },
+                            pre.admins.iter().map(|x| self.name_of(x)).collect::<Vec<_>>(),
+                            pre.mutable,
+                            obs.admins.iter().map(|x| self.name_of(x)).collect::<Vec<_>>(),
+                            obs.mutable
+                        ),
+                    ));
+                }
+                if pre.allow != obs.allow || pre.perms != obs.perms || pre.listed != obs.listed {
+                    let d = "Migrate (no admin's call) changed what the Allowance / AllAllowances / Permissions queries report".to_string();
+                    v.push(Violation::new("C17.allowance_altered_only_by_admin", d.clone()));
+                    v.push(Violation::new("C08.changed_only_by_admin_grant_or_own_spending", d));
+                }
+                self.check_state(h, t, &s.r, &obs, &mut v);
+                self.filter(&mut v);
+                return Step {
+                    next: State { w, r: s.r.clone(), obs, dead: false },
                     label: lbl,
                     ok: out.ok(),
                     violations: v,
@@ -1310,7 +1379,7 @@ impl Model for Cw1Model {
                     }
                 }
             }
-            Act::Probe { .. } | Act::Advance => unreachable!(),
+            Act::Probe { .. } | Act::Advance | Act::Migrate => unreachable!(),
         }
         if let (true, Act::Exec { msgs, .. }) = (cfg.dispatch, a) {
             // the relayed messages were executed: follow the self-addressed ones
